@@ -71,6 +71,15 @@ class SymCall:
                 fl = [lt[1] for lt in _rp.leaf_types(low, st_t[1] if st_t[0] == 'ptr' else st_t) if lt[0] == 'f']
         except Exception:
             fl = []
+        if not fl and f.ret == ('bool',):
+            # predicates (comparison operators): judged against the widest floating type among the arguments
+            try:
+                al = []
+                for pn, pt in f.params:
+                    al += [lt[1] for lt in _rp.leaf_types(low, pt[1] if pt[0] in ('ptr', 'ref') else pt) if lt[0] == 'f']
+                fl = [max(al, key=lambda x: RANK[x])] if al else []
+            except Exception:
+                fl = []
         if fl:
             floor = min(RANK[x] for x in fl)
             for to, frm in S.narrowings[n0:]:
@@ -122,7 +131,7 @@ class RealTask:
             if bad:
                 to, frm, fn, res = bad[0]
                 ob.status, ob.backend = 'failed', 'phqv symex (precision audit)'
-                ob.detail = 'a %s value is narrowed to %s inside %s on its way into a %s result: the result cannot have the precision of its type' % (frm, to, fn, res)
+                ob.detail = 'a %s value is narrowed to %s inside %s on its way into a %s result (for a predicate: before it is compared): the result cannot have the precision of its type' % (frm, to, fn, res)
                 return ob
             if self.goal == TRUE:
                 ob.status, ob.backend, ob.detail = 'discharged', 'phqv-simplifier', 'goal simplified to true'
